@@ -223,9 +223,8 @@ pub fn oracle(ctx: &mut Ctx) {
             st.count("scaled");
         }
         // attached chunks subject to the strip policy (no reductions touch tEXt/pHYs/prVt)
-        let o2 = opts.to_oxi();
         for (n, d) in &attached {
-            let keep = oxipng::verif::strip_keep(&o2.strip, n);
+            let keep = spec_keeps(&opts.strip, n);
             let count = dec.chunks.iter().filter(|c| &c.name == n && &c.data == d).count();
             if keep && count != 1 {
                 st.fail("raw-chunk-lost", format!("attached chunk {} appears {} times", name_str(n), count), replay.clone());
@@ -235,7 +234,7 @@ pub fn oracle(ctx: &mut Ctx) {
             }
         }
         if let Some(p) = &icc {
-            let keep = oxipng::verif::strip_keep(&o2.strip, b"iCCP");
+            let keep = spec_keeps(&opts.strip, b"iCCP");
             let gray_changed = (ct == 0 || ct == 4) != (dec.img.ct == 0 || dec.img.ct == 4);
             let found = dec.chunks.iter().find(|c| &c.name == b"iCCP");
             match found {
@@ -262,7 +261,7 @@ pub fn oracle(ctx: &mut Ctx) {
         }
         if srgb_attached {
             let gray_changed = (ct == 0 || ct == 4) != (dec.img.ct == 0 || dec.img.ct == 4);
-            let keep = oxipng::verif::strip_keep(&o2.strip, b"sRGB");
+            let keep = spec_keeps(&opts.strip, b"sRGB");
             let present = dec.chunks.iter().filter(|c| &c.name == b"sRGB" && c.data == srgb_payload).count();
             if keep && !gray_changed && present != 1 {
                 st.fail("raw-chunk-lost", format!("attached sRGB chunk appears {} times", present), replay.clone());
